@@ -50,6 +50,7 @@ func genMultiOpt(t *Tape, yieldProbe bool) *multiCase {
 				d.Def = t.Pick(validPool[ek])
 			}
 		}
+		d.HideValue = t.Draw(5) == 0
 		if t.Draw(2) == 1 {
 			d.EnvVars = []int{i}
 			if content, set := drawEnvContent(t, d.Kind, t.Draw(4)); set {
@@ -109,7 +110,17 @@ func genMultiOpt(t *Tape, yieldProbe bool) *multiCase {
 	}
 	// spec
 	var parts []string
-	switch t.Draw(3) {
+	twoPlaces := false
+	form := t.Draw(4)
+	if form == 3 && (argRow != nil || !hasArg) {
+		form = 0
+	}
+	switch form {
+	case 3:
+		// the options may stand before or after the positional
+		twoPlaces = true
+		parts = append(parts, "[OPTIONS]", "X", "[OPTIONS]")
+		hasArg = false
 	case 0:
 		parts = append(parts, "[OPTIONS]")
 	case 1:
@@ -179,9 +190,21 @@ func genMultiOpt(t *Tape, yieldProbe bool) *multiCase {
 	}
 	s.foldAdjacent(t, ds)
 	argv := append([]string{"app"}, s.toks...)
+	if twoPlaces {
+		// some occurrences before the positional, the rest behind it
+		cut := 0
+		if len(s.toks) > 0 {
+			cut = t.Draw(len(s.toks) + 1)
+			for cut > 0 && cut < len(s.toks) && !strings.HasPrefix(s.toks[cut], "-") {
+				cut-- // never between an option and its separate value
+			}
+		}
+		argv = append(append(append([]string{"app"}, s.toks[:cut]...), "xval"), s.toks[cut:]...)
+		c.Cli[ds.Args[0]] = []string{"xval"}
+	}
 	if probeDecl != nil {
 		pn := probeDecl.Name[:1]
-		argv = append([]string{"app", []string{"-" + pn + "=1", "--quux=2", "-" + pn + "3"}[t.Draw(3)]}, s.toks...)
+		argv = append([]string{"app", []string{"-" + pn + "=1", "--quux=2", "-" + pn + "3"}[t.Draw(3)]}, argv[1:]...)
 	}
 	if hasArg && t.Draw(2) == 1 {
 		argv = append(argv, "xval")
